@@ -112,6 +112,13 @@ def build(spec):
                 F[i, i + 1] = q
                 F[i + 1, i] = q * np.array([1.0, -1.0, -1.0, -1.0])
         A = qalg.from_comps(F)
+    elif g == "maskq":
+        # Gaussian entries confined to the components listed in mask (w, x, y, z)
+        F = _rng(spec["seed"]).standard_normal((spec["m"], spec["n"], 4))
+        for c, keep in enumerate(spec["mask"]):
+            if not keep:
+                F[..., c] = 0.0
+        A = qalg.from_comps(F)
     elif g == "imagq":
         F = _rng(spec["seed"]).standard_normal((spec["m"], spec["n"], 4))
         F[..., 0] = 0.0
@@ -214,7 +221,7 @@ def shape_of(spec):
     if not isinstance(spec, dict):
         return None
     g = spec.get("gen")
-    if g in ("gauss", "int", "psvd", "zeros", "real", "complex", "entry", "realq", "imagq"):
+    if g in ("gauss", "int", "psvd", "zeros", "real", "complex", "entry", "realq", "imagq", "maskq"):
         return (spec["m"], spec["n"])
     if g in ("herm", "unitary", "cI", "I_lowrank", "tri", "hess", "tridiag_herm"):
         return (spec["n"], spec["n"])
